@@ -146,11 +146,16 @@ def jobs(tier):
             n = 4 if dom.startswith('Image2D') else 2
             if kind == 'jacobian' and dom.startswith('Image2D'): continue
             J.append(Job(f'forward:{kind}:domain={dom}', lambda c, k=kind, d=dom, n=n: representations(c, k, d, 2, n), 'Pbox', FL, maxpaths=256))
+            if not q:
+                for (m2, n2, N2) in ((3, n + 2 if dom.startswith('Image2D') else 3, 3), (1, n, 1)):
+                    J.append(Job(f'forward:{kind}:domain={dom}:m={m2}:n={n2}:N={N2}', lambda c, k=kind, d=dom, m2=m2, n2=n2, N2=N2: representations(c, k, d, m2, n2, N2), 'Pbox', FL, maxpaths=256))
     for kind in ('jacobian', 'gradient', 'linear', 'nograd'):
         for dom in doms + ['MappedInv', 'KL']:
             n = 4 if dom.startswith('Image2D') else 2
             if kind == 'jacobian' and dom.startswith('Image2D'): continue
             J.append(Job(f'gradient:{kind}:domain={dom}', lambda c, k=kind, d=dom, n=n: gradient(c, k, d, 2, n), 'Pbox', GL, rtol=1e-4, maxpaths=256))
+            if not q:
+                J.append(Job(f'gradient:{kind}:domain={dom}:m=3:n={n + 2 if dom.startswith("Image2D") else 3}', lambda c, k=kind, d=dom, n=n: gradient(c, k, d, 3, n + 2 if d.startswith('Image2D') else 3), 'Pbox', GL, rtol=1e-4, maxpaths=256))
     J.append(Job('gradient:range_geometry_not_identity', range_not_identity, 'Pbox', GL))
     J.append(Job('forward:applied_to_distribution_only_renames', apply_to_distribution, 'Pbox', [f'{M}:Model.forward']))
     return J
